@@ -278,13 +278,16 @@ class SaltChars(Part):
         self.tier, self.seed = tier, seed
 
     def cases(self):
-        return [{"c": c} for c in refs.J9_ALPHABET]
+        # the shortest plaintexts give the shortest well-formed strings (4 characters after the magic
+        # under the salt characters that take no filler)
+        return [{"c": c, "P": P_} for c in refs.J9_ALPHABET for P_ in (P, "x", "pw")]
 
     def run(self, case):
         from netconan.anonymize_files import FileAnonymizer
 
         res = Res()
         c = case["c"]
+        P = case.get("P", globals()["P"])
         others = [case["d"]] if "d" in case else list(refs.J9_ALPHABET) + ["<clear>"]
         for d in others:
             for order in (0, 1):
@@ -300,12 +303,12 @@ class SaltChars(Part):
                         fa.anonymize_io(io.StringIO('set system x secret "%s"\n' % s), buf)
                         tok = buf.getvalue().rstrip("\n").split(" ")[-1].strip('"')
                         reps.append(canon_repl(tok).split(":", 1))
-                res.nt((c, d, order))
+                res.nt((c, d, order, P))
                 res.out(tuple(r[1] for r in reps))
                 if reps[0][1] != reps[1][1] or reps[0][0] == "malformed" or reps[0][1] == P:
                     res.violation("same-plaintext-different-replacement|%s" % (
                         "clear" if d == "<clear>" else "two-salts"),
-                        "sequence %r -> replacements %r" % (seq, reps), {"c": c, "d": d})
+                        "sequence %r -> replacements %r" % (seq, reps), {"c": c, "d": d, "P": P})
         res.samples.append({"salt_char": c, "pairs": len(others) * 2})
         return res
 
